@@ -225,12 +225,87 @@ func loopDepth(b *ssa.BasicBlock) int {
 var sizes64 = types.SizesFor("gc", "amd64")
 
 func sidBlockTokens(f *ssa.Function) ([]xfer, []string) {
+	return sidBlockTokensD(f, 0)
+}
+
+// constLenBytes: v is a []byte of constant length N (make([]byte, N) or a full slice of a [N]byte); returns N.
+func constLenBytes(v ssa.Value) (int64, bool) {
+	switch x := strip(v).(type) {
+	case *ssa.MakeSlice:
+		return constInt(x.Len)
+	case *ssa.Slice:
+		if x.Low != nil || x.High != nil {
+			lo, hi := int64(0), int64(-1)
+			if x.Low != nil {
+				k, ok := constInt(x.Low)
+				if !ok {
+					return 0, false
+				}
+				lo = k
+			}
+			if x.High != nil {
+				k, ok := constInt(x.High)
+				if !ok {
+					return 0, false
+				}
+				hi = k
+			}
+			if hi >= 0 {
+				return hi - lo, true
+			}
+			if p, ok := x.X.Type().Underlying().(*types.Pointer); ok {
+				if arr, ok := p.Elem().Underlying().(*types.Array); ok {
+					return arr.Len() - lo, true
+				}
+			}
+			return 0, false
+		}
+		if p, ok := x.X.Type().Underlying().(*types.Pointer); ok {
+			if arr, ok := p.Elem().Underlying().(*types.Array); ok {
+				return arr.Len(), true
+			}
+		}
+	}
+	return 0, false
+}
+
+// byteOrderUse: is the byte slice v filled by / decoded with encoding/binary's fixed-width (Put)UintN? Returns the
+// byte-order name and the width.
+func byteOrderUse(v ssa.Value, put bool) (string, int64, bool) {
+	refs := strip(v).Referrers()
+	if refs == nil {
+		return "", 0, false
+	}
+	for _, r := range *refs {
+		c, ok := r.(*ssa.Call)
+		if !ok {
+			continue
+		}
+		cal := c.Common().StaticCallee()
+		if cal == nil || cal.Pkg == nil || cal.Pkg.Pkg.Path() != "encoding/binary" || cal.Signature.Recv() == nil {
+			continue
+		}
+		name := cal.Name()
+		if put != strings.HasPrefix(name, "Put") {
+			continue
+		}
+		name = strings.TrimPrefix(name, "Put")
+		var bits int64
+		if _, err := fmt.Sscanf(name, "Uint%d", &bits); err != nil {
+			continue
+		}
+		order := "BigEndian"
+		if strings.Contains(cal.String(), "littleEndian") {
+			order = "LittleEndian"
+		}
+		return order, bits / 8, true
+	}
+	return "", 0, false
+}
+
+func sidBlockTokensD(f *ssa.Function, depth int) ([]xfer, []string) {
 	var out []xfer
 	var endian []string
-	// go/ssa lays blocks out in source order for structured code; sort by position to be safe
-	type item struct {
-		in ssa.Instruction
-	}
 	var calls []*ssa.Call
 	instrs(f, func(in ssa.Instruction) {
 		if c, ok := in.(*ssa.Call); ok {
@@ -238,14 +313,30 @@ func sidBlockTokens(f *ssa.Function) ([]xfer, []string) {
 		}
 	})
 	sort.SliceStable(calls, func(i, j int) bool { return calls[i].Pos() < calls[j].Pos() })
+	isStream := func(v ssa.Value) bool {
+		t := strip(v).Type()
+		return typeIs(t, "bytes", "Buffer") || typeIs(t, "bytes", "Reader")
+	}
 	for _, c := range calls {
 		cal := c.Common().StaticCallee()
 		if cal == nil {
 			continue
 		}
+		args := c.Common().Args
+		fixed := func(buf ssa.Value, put bool) {
+			n, ok := constLenBytes(buf)
+			if !ok {
+				return
+			}
+			if order, w, ok := byteOrderUse(buf, put); ok && w == n {
+				out = append(out, xfer{loopDepth(c.Block()), n, "bin", c.Pos()})
+				endian = append(endian, order)
+				return
+			}
+			out = append(out, xfer{loopDepth(c.Block()), n, "raw", c.Pos()})
+		}
 		switch cal.String() {
 		case "encoding/binary.Write", "encoding/binary.Read":
-			args := c.Common().Args
 			if len(args) != 3 {
 				continue
 			}
@@ -260,15 +351,34 @@ func sidBlockTokens(f *ssa.Function) ([]xfer, []string) {
 					endian = append(endian, gl.Name())
 				}
 			}
-		case "(*bytes.Buffer).Write", "(*bytes.Reader).Read":
-			arg := c.Common().Args[1]
-			if s, ok := arg.(*ssa.Slice); ok {
-				if p, ok := s.X.Type().Underlying().(*types.Pointer); ok {
-					if arr, ok := p.Elem().Underlying().(*types.Array); ok {
-						out = append(out, xfer{loopDepth(c.Block()), arr.Len(), "raw", c.Pos()})
-					}
+		case "(*bytes.Buffer).Write":
+			fixed(args[1], true)
+		case "(*bytes.Reader).Read":
+			fixed(args[1], false)
+		case "io.ReadFull":
+			if isStream(args[0]) {
+				fixed(args[1], false)
+			}
+		default:
+			// an in-package helper that is handed the stream: its transfers happen at the call's loop depth
+			if cal.Blocks == nil || cal.Pkg != f.Pkg || cal == f || depth >= 2 {
+				continue
+			}
+			gets := false
+			for _, a := range args {
+				if isStream(a) {
+					gets = true
 				}
 			}
+			if !gets {
+				continue
+			}
+			sub, se := sidBlockTokensD(cal, depth+1)
+			d := loopDepth(c.Block())
+			for _, t := range sub {
+				out = append(out, xfer{d + t.Depth, t.Width, t.Kind, c.Pos()})
+			}
+			endian = append(endian, se...)
 		}
 	}
 	return out, uniq(endian)
